@@ -30,15 +30,17 @@ import (
 	"encoding/base64"
 	"encoding/json"
 	"fmt"
+	"net/url"
 	"os"
 	"path/filepath"
 	"strconv"
 	"strings"
+	"time"
 
 	"github.com/ipfs/ipfs-cluster/config"
-	"verifharness/common"
 	crypto "github.com/libp2p/go-libp2p-core/crypto"
 	peer "github.com/libp2p/go-libp2p-core/peer"
+	"verifharness/common"
 )
 
 type keyPair struct {
@@ -306,10 +308,15 @@ func identBoundary(tier string) {
 	for _, t := range dispTypes {
 		runDisp(t.name)
 	}
+	utilBoundary()
 }
 
 func identRandom(k int) {
 	r := common.NewRng(common.Seed()).Fork(uint64(k) + 77000)
+	if r.Chance(1, 4) {
+		utilRandom(r)
+		return
+	}
 	n := 1 + r.Intn(4)
 	var ops []string
 	haveKey := false
@@ -484,4 +491,268 @@ func runDisp(name string) {
 		toks = append(toks, strings.Join(l.path, ".")+"="+obs)
 	}
 	out.Line("C15 disp %s => res=%s leaves=%s", name, res, strings.Join(toks, ","))
+}
+
+// ---------- config.SetIfNotDefault and config.ParseDurations driven directly ----------
+//
+//	C15 sind <go type> guard=<arm of the regenerated type switch | none> z=<src is the zero value> src=<v> dest=<v> => out=<v>
+//	C15 pdur args=<e | b | o<ns>, ...> cur=<ns,...> => res=<ok|err> out=<ns,...>
+//
+// sind types without an arm (int64, uint, float32, list) show what the missing default case means: nothing is assigned.
+
+var sindGuards map[string]string
+
+func sindGuard(ty string) string {
+	if sindGuards == nil {
+		sindGuards = map[string]string{}
+		arms, err := common.C15SindArms(common.C15Repo())
+		if err == nil {
+			for _, a := range arms {
+				sindGuards[a.Type] = a.Guard
+			}
+		}
+	}
+	if g, ok := sindGuards[ty]; ok {
+		return g
+	}
+	return "none"
+}
+
+var sindValues = map[string][]string{
+	"int":           {"0", "1", "-1", "4096", "9223372036854775807", "-9223372036854775808"},
+	"uint64":        {"0", "1", "4096", "18446744073709551615"},
+	"float64":       {"0", "1", "-1.5", "1e-300", "1.7976931348623157e+308"},
+	"bool":          {"false", "true"},
+	"string":        {"", "x", "0", "+", "a%2Fb"},
+	"time.Duration": {"0", "1", "-1", "60000000000", "9223372036854775807"},
+	"int64":         {"0", "7"},
+	"uint":          {"0", "7"},
+	"float32":       {"0", "2.5"},
+	"list":          {"", "a"},
+}
+
+var sindOrder = []string{"int", "uint64", "float64", "bool", "string", "time.Duration", "int64", "uint", "float32", "list"}
+
+func runSind(ty, src, dest string) {
+	out := "bad"
+	z := 0
+	r := guard(func() error {
+		switch ty {
+		case "int":
+			s, e1 := strconv.ParseInt(src, 10, 64)
+			d, e2 := strconv.ParseInt(dest, 10, 64)
+			if e1 != nil || e2 != nil {
+				return fmt.Errorf("bad")
+			}
+			sv, dv := int(s), int(d)
+			if sv == 0 {
+				z = 1
+			}
+			config.SetIfNotDefault(sv, &dv)
+			out = strconv.Itoa(dv)
+		case "int64":
+			s, e1 := strconv.ParseInt(src, 10, 64)
+			d, e2 := strconv.ParseInt(dest, 10, 64)
+			if e1 != nil || e2 != nil {
+				return fmt.Errorf("bad")
+			}
+			if s == 0 {
+				z = 1
+			}
+			config.SetIfNotDefault(s, &d)
+			out = strconv.FormatInt(d, 10)
+		case "time.Duration":
+			s, e1 := strconv.ParseInt(src, 10, 64)
+			d, e2 := strconv.ParseInt(dest, 10, 64)
+			if e1 != nil || e2 != nil {
+				return fmt.Errorf("bad")
+			}
+			sv, dv := time.Duration(s), time.Duration(d)
+			if sv == 0 {
+				z = 1
+			}
+			config.SetIfNotDefault(sv, &dv)
+			out = strconv.FormatInt(int64(dv), 10)
+		case "uint64":
+			s, e1 := strconv.ParseUint(src, 10, 64)
+			d, e2 := strconv.ParseUint(dest, 10, 64)
+			if e1 != nil || e2 != nil {
+				return fmt.Errorf("bad")
+			}
+			if s == 0 {
+				z = 1
+			}
+			config.SetIfNotDefault(s, &d)
+			out = strconv.FormatUint(d, 10)
+		case "uint":
+			s, e1 := strconv.ParseUint(src, 10, 64)
+			d, e2 := strconv.ParseUint(dest, 10, 64)
+			if e1 != nil || e2 != nil {
+				return fmt.Errorf("bad")
+			}
+			sv, dv := uint(s), uint(d)
+			if sv == 0 {
+				z = 1
+			}
+			config.SetIfNotDefault(sv, &dv)
+			out = strconv.FormatUint(uint64(dv), 10)
+		case "float64":
+			s, e1 := strconv.ParseFloat(src, 64)
+			d, e2 := strconv.ParseFloat(dest, 64)
+			if e1 != nil || e2 != nil {
+				return fmt.Errorf("bad")
+			}
+			if s == 0 {
+				z = 1
+			}
+			config.SetIfNotDefault(s, &d)
+			out = fmtFloat(d)
+		case "float32":
+			s, e1 := strconv.ParseFloat(src, 32)
+			d, e2 := strconv.ParseFloat(dest, 32)
+			if e1 != nil || e2 != nil {
+				return fmt.Errorf("bad")
+			}
+			sv, dv := float32(s), float32(d)
+			if sv == 0 {
+				z = 1
+			}
+			config.SetIfNotDefault(sv, &dv)
+			out = fmtFloat(float64(dv))
+		case "bool":
+			sv, dv := src == "true", dest == "true"
+			if !sv {
+				z = 1
+			}
+			config.SetIfNotDefault(sv, &dv)
+			out = strconv.FormatBool(dv)
+		case "string":
+			sv, e1 := url.QueryUnescape(src)
+			dv, e2 := url.QueryUnescape(dest)
+			if e1 != nil || e2 != nil {
+				return fmt.Errorf("bad")
+			}
+			if sv == "" {
+				z = 1
+			}
+			config.SetIfNotDefault(sv, &dv)
+			out = esc(dv)
+		case "list":
+			var sv, dv []string
+			if src != "" {
+				sv = strings.Split(src, "+")
+			} else {
+				z = 1
+			}
+			if dest != "" {
+				dv = strings.Split(dest, "+")
+			}
+			config.SetIfNotDefault(sv, &dv)
+			out = strings.Join(dv, "+")
+		default:
+			return fmt.Errorf("bad")
+		}
+		return nil
+	})
+	if r == "panic" {
+		out = "panic"
+	} else if r != "ok" {
+		return
+	}
+	common_out("C15 sind %s guard=%s z=%d src=%s dest=%s => out=%s", ty, sindGuard(ty), z, src, dest, out)
+}
+
+func common_out(f string, a ...interface{}) { out.Line(f, a...) }
+
+func sindDest(ty string) string {
+	switch ty {
+	case "bool":
+		return "true"
+	case "string":
+		return "dflt"
+	case "list":
+		return "d1+d2"
+	case "float64", "float32":
+		return "42.5"
+	}
+	return "42"
+}
+
+func runPdur(args []string, cur []int64) {
+	if len(args) != len(cur) || len(args) == 0 {
+		return
+	}
+	dst := make([]time.Duration, len(args))
+	var opts []*config.DurationOpt
+	for i, a := range args {
+		dst[i] = time.Duration(cur[i])
+		text := ""
+		switch {
+		case a == "e":
+		case a == "b":
+			text = "12parsecs"
+		case strings.HasPrefix(a, "o"):
+			n, err := strconv.ParseInt(a[1:], 10, 64)
+			if err != nil {
+				return
+			}
+			text = time.Duration(n).String()
+		default:
+			return
+		}
+		opts = append(opts, &config.DurationOpt{Duration: text, Dst: &dst[i], Name: "arg" + strconv.Itoa(i)})
+	}
+	res := guard(func() error { return config.ParseDurations("verif", opts...) })
+	var o, c []string
+	for i := range dst {
+		o = append(o, strconv.FormatInt(int64(dst[i]), 10))
+		c = append(c, strconv.FormatInt(cur[i], 10))
+	}
+	out.Line("C15 pdur args=%s cur=%s => res=%s out=%s", strings.Join(args, ","), strings.Join(c, ","), res, strings.Join(o, ","))
+}
+
+func utilBoundary() {
+	for _, ty := range sindOrder {
+		for _, v := range sindValues[ty] {
+			runSind(ty, v, sindDest(ty))
+		}
+	}
+	runSind("bool", "false", "false")
+	runSind("bool", "true", "false")
+	for _, a := range [][]string{{"e"}, {"b"}, {"o0"}, {"o1"}, {"o-1000000000"}, {"o9223372036854775807"}, {"o5000000000", "b", "o7"}, {"b", "o7"},
+		{"o7", "e", "o8"}, {"e", "e"}, {"o3", "o0", "b", "b", "o4"}} {
+		cur := make([]int64, len(a))
+		for i := range cur {
+			cur[i] = int64(100 + i)
+		}
+		runPdur(a, cur)
+	}
+}
+
+func utilRandom(r *common.Rng) {
+	if r.Chance(1, 2) {
+		ty := sindOrder[r.Intn(6)]
+		vs := sindValues[ty]
+		v := vs[r.Intn(len(vs))]
+		if (ty == "int" || ty == "time.Duration") && r.Chance(1, 2) {
+			v = strconv.FormatInt(int64(r.Intn(2000000))-1000000, 10)
+		}
+		runSind(ty, v, sindDest(ty))
+		return
+	}
+	n := 1 + r.Intn(5)
+	var a []string
+	var cur []int64
+	for i := 0; i < n; i++ {
+		switch c := r.Intn(6); {
+		case c == 0:
+			a = append(a, "e")
+		case c == 1:
+			a = append(a, "b")
+		default:
+			a = append(a, "o"+strconv.FormatInt(int64(r.Intn(4000000000))-1000000000, 10))
+		}
+		cur = append(cur, int64(r.Intn(1000)))
+	}
+	runPdur(a, cur)
 }
